@@ -61,7 +61,32 @@ pub fn misc_macros(rep: &mut Report) {
     let t = (String::from("t"), 5u8, vec![1u16]);
     konst::destructure! {(t0, _, t2) = t}
     assert_eq!((t0.as_str(), t2.len()), ("t", 1));
-    rep.transitions += 5;
+    // every tuple arity up to the documented maximum, with heap-owning components: a component read twice is a double free
+    // (the allocator / the interpreter reports it), one never moved out is a wrong value
+    macro_rules! tuple_arity {
+        ($($v:ident)*) => {{
+            let mut k = 0usize;
+            let t = ($({ k += 1; let $v = format!("c{k}"); $v },)*);
+            konst::destructure! {($($v),*,) = t}
+            let got: Vec<String> = vec![$($v),*];
+            let exp: Vec<String> = (1..=got.len()).map(|i| format!("c{i}")).collect();
+            assert_eq!(got, exp);
+        }};
+    }
+    tuple_arity!(a1);
+    tuple_arity!(a1 a2);
+    tuple_arity!(a1 a2 a3);
+    tuple_arity!(a1 a2 a3 a4);
+    tuple_arity!(a1 a2 a3 a4 a5 a6 a7 a8);
+    tuple_arity!(a1 a2 a3 a4 a5 a6 a7 a8 a9 a10 a11 a12 a13 a14 a15);
+    tuple_arity!(a1 a2 a3 a4 a5 a6 a7 a8 a9 a10 a11 a12 a13 a14 a15 a16);
+    // misaligned fields of packed structs (tuple-struct and braced form) with heap-owning neighbours
+    #[repr(C, packed)]
+    struct PT(u8, u64, String, u8, u32);
+    let pt = PT(1, 2, String::from("pt"), 3, 4);
+    konst::destructure! {PT(p0, p1, p2, p3, p4) = pt}
+    assert_eq!((p0, p1, p2.as_str(), p3, p4), (1, 2, "pt", 3, 4));
+    rep.transitions += 12;
 
     // iterator DSL at run time (incl. collect-like use through for_each) and string iterators inside it
     let xs = [3u16, 1, 2, 5];
